@@ -80,6 +80,47 @@ CLAIMED = {
              "and close are covered by correspondence only.",
         note=COMMON_NOTE + "Interleavings finer than the schedule points are not explored; the ready-list capacity >= #pipes precondition is the code's own.",
         design="§8 C08"),
+    "C09": dict(
+        engine="M4 Rpq",
+        technique="Lean 4: the queue invariant of C08 extended with a `cancel` action (drop of a future parked at an await); tie: turnstile "
+                  "schedules with injected cancellations on the real ReadyPipeQueue, run in lock-step with the model",
+        text="Proof over the queue model: dropping a future that is parked at an await (a consumer waiting for a ready entry, a producer "
+             "waiting for channel space) or not yet polled preserves the invariant (reservation rolled back, no token lost), changes no "
+             "channel, no log of accepted/taken/returned items, and a cancelled send has written nothing; the arm/re-arm awaits are never "
+             "cancellation points; the invariant survives any mix of steps and cancellations. 5 theorems. KNOWN FINDING: a use-after-free in "
+             "the fibre dependency's async mpmc (dangling waiter) is reproduced by a valgrind witness. Partial: socket-level API futures "
+             "(send_multipart transactions, REQ/REP state claims, ROUTER fragmented sends) are not modelled here; REQ/REP claims roll back "
+             "on drop by construction of the fix (8c... in /repo) and are exercised by the repository's own tests only.",
+        note=COMMON_NOTE + "Cancellation inside third-party futures (fibre, tokio) is assumed safe except for the recorded finding.",
+        design="§8 C09"),
+    "C11": dict(
+        engine="M6 Routing",
+        technique="Lean 4 refinement of the ROUTER identity map to a per-pipe specification for every history (soundness) and every "
+                  "collision-free history (completeness); envelope algebra by case analysis over frame lists; tie: lock-step "
+                  "correspondence on the real RouterMap/strategies/framing functions",
+        text="Proof over the routing model: for EVERY history of add/re-identify/remove (identity collisions included) a lookup only ever "
+             "yields the endpoint of a live pipe that currently holds exactly that identity, and the identity reported for a pipe is its "
+             "current one; without collisions lookup is exact; the newest claimant of a colliding identity stays routable (fixed). Envelope "
+             "round trips DEALER->ROUTER, ROUTER->DEALER, REQ->ROUTER, ROUTER->REQ, REQ<->REP, DEALER<->REP preserve payload frames "
+             "(empty frames anywhere). 13 theorems. Partial: the identity gate (pipe_finalized/held_ingress), ROUTER_MANDATORY error "
+             "mapping and the sockets' private envelope methods are tied only through the model of their pure parts; stack-level ROUTER "
+             "scenarios are not yet part of this check.",
+        note=COMMON_NOTE + "Socket-level envelope functions are modelled from the source text; they are private methods not reachable from the harness.",
+        design="§8 C11"),
+    "C17": dict(
+        engine="M6 Routing + M7 Lifecycle",
+        technique="Lean 4 arithmetic theorems for both back-off schedules over all (RECONNECT_IVL, RECONNECT_IVL_MAX, attempt); decision-table "
+                  "theorem for event handling with the shutdown-triggering arms re-extracted from source; tie: translator + correspondence "
+                  "on ReconnectState + stack-level fault-injection scenarios",
+        text="Proof: the core's delay starts at RECONNECT_IVL (or the cap), never more than doubles, is monotone, never exceeds "
+             "RECONNECT_IVL_MAX when set, cannot overflow, saturates at 2^31; the connecter's own schedule is capped for every attempt "
+             "(fixed in a21453b) and hands over consistently; a socket shuts itself down only on events about itself — a failed/refused "
+             "connection of any kind, another socket closing or a refused inproc connector (fixed in b9fdf8d) leave it running. 16 "
+             "theorems. Partial: the event-handling model is a decision table whose arms are re-extracted by pattern matching; resumption of "
+             "traffic after a peer returns is observed at stack level only; a lagging event-bus receiver does shut a socket down (theorem "
+             "bus_lag_shuts_down; suspected defect, not reproduced on the real code).",
+        note=COMMON_NOTE + "Fault injection covers wrong socket type (inproc/tcp/ipc), garbage, reset, half greeting, oversized frame on a second connection.",
+        design="§8 C17"),
     "C12": dict(
         engine="M6 Routing",
         technique="Lean 4 refinement proof: the subscription trie refines the multiset of active subscriptions for every call history "
